@@ -34,6 +34,7 @@ type gen struct {
 	lists    []*Decl // named containers
 	subTypes []string
 	hasSub   bool
+	usedDashKey bool
 }
 
 var allScalars = []string{"int", "int64", "string", "bool", "float64", "int32", "uint8", "int16", "uint16", "uint", "float32", "byte", "rune", "int8", "uint32", "uint64"}
@@ -180,6 +181,13 @@ func (g *gen) tag() string {
 		return fmt.Sprintf(`json:"%s"`, key)
 	}
 	f := pick(g.rng, tagForms)
+	if f == `json:"-,"` {
+		// the key "-" can be used once per program only (two equal keys in one struct hide each other)
+		if g.usedDashKey {
+			f = `json:"%s"`
+		}
+		g.usedDashKey = true
+	}
 	g.c.AddFeat("tag:" + strings.SplitN(strings.ReplaceAll(f, "%s", "K"), " ", 2)[0])
 	n := strings.Count(f, "%s")
 	args := make([]any, n)
